@@ -34,11 +34,16 @@ Theorem init_int_wrapped s v : wf_shape s = true ->
   get_init_value (SShape s) (IInt v) = Ok (norm s v).
 Proof. intros H. cbn. rewrite const_norm_spec by auto. reflexivity. Qed.
 
-(* an int initial value on a range: accepted exactly when it is an element, and then kept as it is *)
-Theorem init_range_spec a b st v r : st <> 0 ->
-  get_init_value (SRange a b st) (IInt v) = Ok r <-> (range_elem a b st v /\ r = v).
+(* an initial value that is given (int, enum member, constant expression) on a range: accepted exactly when the VALUE it
+   stands for is an element of the range, and then that value is kept as it is *)
+Theorem init_range_spec a b st i r : st <> 0 -> i <> INone ->
+  get_init_value (SRange a b st) i = Ok r <-> (range_elem a b st (init_const_value i) /\ r = init_const_value i).
 Proof.
-  intros Hst. cbn [get_init_value spec_shape]. rewrite <- range_mem_iff by auto.
+  intros Hst Hi. set (v := init_const_value i).
+  assert (Hg : get_init_value (SRange a b st) i =
+               if range_mem a b st v then Ok (const_norm (cast_range a b st) v) else Err 4).
+  { destruct i; try reflexivity. congruence. }
+  rewrite Hg. rewrite <- range_mem_iff by auto.
   destruct (range_mem a b st v) eqn:E.
   - assert (Hn : const_norm (cast_range a b st) v = v).
     { rewrite const_norm_spec by apply cast_range_wf. apply norm_id; [apply cast_range_wf|].
@@ -47,31 +52,40 @@ Proof.
   - split; [discriminate|intros [H _]; discriminate].
 Qed.
 
-Theorem init_range_rejects a b st v : st <> 0 -> ~ range_elem a b st v ->
-  get_init_value (SRange a b st) (IInt v) = Err 4.
+Theorem init_range_rejects a b st i : st <> 0 -> i <> INone -> ~ range_elem a b st (init_const_value i) ->
+  get_init_value (SRange a b st) i = Err 4.
 Proof.
-  intros Hst Hn. cbn [get_init_value]. destruct (range_mem a b st v) eqn:E; [|reflexivity].
-  exfalso. apply Hn. apply range_mem_iff; auto.
+  intros Hst Hi Hn. destruct (get_init_value (SRange a b st) i) as [r|c] eqn:E.
+  - exfalso. apply Hn. apply (init_range_spec a b st i r Hst Hi). exact E.
+  - destruct i; try congruence; cbn in E; destruct (range_mem _ _ _ _); congruence.
+Qed.
+
+(* the value a constant expression / an enum member stands for *)
+Lemma init_value_expr e : cwf e = true -> init_const_value (IExpr e) = norm (cshape e) (cdenote e).
+Proof. intros He. cbn. destruct (const_cast_eval e He) as [Hc _]. rewrite Hc. reflexivity. Qed.
+Lemma init_value_enum ms v : In v ms -> init_const_value (IEnum ms v) = v.
+Proof.
+  intros Hin. cbn.
+  assert (Hw : wf_shape (cast_enum ms) = true).
+  { rewrite cast_enum_is_unify. apply unify_wf. apply Forall_forall. intros t Ht. apply in_map_iff in Ht.
+    destruct Ht as (x & <- & _). apply const_shape_wf. }
+  rewrite const_norm_spec by auto. apply norm_id; auto. apply cast_enum_represents; auto.
 Qed.
 
 (* a constant expression (Const / Cat / Slice) as the initial value: its evaluation, wrapped into the signal's shape *)
 Theorem init_expr_spec s e : wf_shape s = true -> cwf e = true ->
   get_init_value (SShape s) (IExpr e) = Ok (norm s (norm (cshape e) (cdenote e))).
 Proof.
-  intros Hs He. cbn [get_init_value spec_shape]. destruct (const_cast_eval e He) as [Hc _]. rewrite Hc. cbn [fst].
-  rewrite const_norm_spec by auto. reflexivity.
+  intros Hs He. change (get_init_value (SShape s) (IExpr e)) with (@Ok Z (const_norm s (init_const_value (IExpr e)))).
+  rewrite init_value_expr by auto. rewrite const_norm_spec by auto. reflexivity.
 Qed.
 
 (* a member of an integer enumeration as the initial value: its value (it fits the class's shape) wrapped into the signal's *)
 Theorem init_enum_spec s ms v : wf_shape s = true -> In v ms ->
   get_init_value (SShape s) (IEnum ms v) = Ok (norm s v).
 Proof.
-  intros Hs Hin. cbn [get_init_value spec_shape].
-  assert (Hw : wf_shape (cast_enum ms) = true).
-  { rewrite cast_enum_is_unify. apply unify_wf. apply Forall_forall. intros t Ht. apply in_map_iff in Ht.
-    destruct Ht as (x & <- & _). apply const_shape_wf. }
-  rewrite (const_norm_spec (cast_enum ms)) by auto. rewrite (norm_id (cast_enum ms)) by (auto; apply cast_enum_represents; auto).
-  rewrite const_norm_spec by auto. reflexivity.
+  intros Hs Hin. change (get_init_value (SShape s) (IEnum ms v)) with (@Ok Z (const_norm s (init_const_value (IEnum ms v)))).
+  rewrite init_value_enum by auto. rewrite const_norm_spec by auto. reflexivity.
 Qed.
 
 (* ---------- MemoryData.Init ---------- *)
@@ -142,12 +156,6 @@ Qed.
 Lemma cast_enum_as_shapes ms : cast_enum ms = cast_enum_shapes (map const_shape ms).
 Proof. reflexivity. Qed.
 
-(* Flag classes: the shape represents every single-bit member … *)
-Theorem cast_flag_singles ms v : In v ms -> single_bit v = true -> in_range (cast_flag ms) v.
-Proof. intros Hin Hs. unfold cast_flag. apply cast_enum_represents. apply filter_In. auto. Qed.
-
-(* … but NOT every member: a multi-bit member whose bits are not all named by single-bit members is skipped by the
-   iteration of the class (CPython >= 3.11), so it does not count — class F(Flag): A = 1; C = 6 casts to unsigned(1) *)
-Theorem cast_flag_refuted : exists ms v, In v ms /\ 0 < v /\ ~ in_range (cast_flag ms) v /\
-  const_norm (cast_flag ms) v <> v.
-Proof. exists [1; 6], 6. vm_compute. repeat split; try congruence; try (left; reflexivity); intuition congruence. Qed.
+(* Flag / IntFlag classes count every declared member (multi-bit masks and aliases included) *)
+Lemma cast_flag_all ms : cast_flag ms = cast_enum ms.
+Proof. reflexivity. Qed.
